@@ -20,6 +20,9 @@ from framework.registry import target, job, PROPS, COMMON_ASSUME
 #    16-thread SpGEMM switch the property text still says "bitwise": a difference there is reported under the distinct keys
 #    '(product|hierarchy|cycle):saad-vs-rmerge-rounding' of sub 'diff' (design finding F5) and is additionally bounded by a
 #    rounding bound (a difference beyond it has the separate key suffix ':beyond-rounding-across-spgemm-switch').
+#    The first coarse operator (level 2) must still have the identical sparsity pattern on both sides of the switch and values
+#    within (kR+kA+kP+3) u (|R||A||P|)_ij, so a row-merge product fed with unsorted rows is not hidden behind F5; deeper levels
+#    may take different discrete coarsening decisions after a last-bit change and are reported as F5 only.
 #  * Energy-minimising transfer operators are compared on level 1 only (deeper levels may take different discrete
 #    aggregation decisions after a last-bit change of A_c, which "equal up to rounding" cannot exclude).
 #  * Full solves: "all thread counts report convergence to tol => solutions agree to 10 kappa_2(A) tol" (kappa from a dense
@@ -62,7 +65,7 @@ def c09_jobs(tier):
 
 PROPS['C09'] = dict(
     level='exploration', jobs=c09_jobs,
-    rule='sched_exhaustive: every sparsity pattern with stored diagonal for n = 1..4 (4 165 patterns) and for n = 5 every 61st (quick) / all 2^20 (thorough), at 4, 5 and 8 threads, batch cases of 1024 masks, one non-trivial sub-case per pattern whose schedule tables were read; sched_random / sweep_random / epoch_trace: seeded G1 grids, G2 graph Laplacians, diagonally dominant matrices with symmetric and non-symmetric pattern, structurally non-symmetric convection-diffusion and one-sided chains (20..4000 rows) at 4..32 threads; diff: seeded G1/G2/G3 inputs (600..6000 rows) plus a small system (100..400 rows, kappa by SVD) for 12-24 solver cells per input, every output recomputed at every thread count of the list; repeat: 20 repetitions per thread count. A case is non-trivial when at least one level-scheduled object was built (>= 4 threads) or at least two thread counts were compared; distinct = distinct (sub-check, descriptor) hash.',
+    rule='sched_exhaustive: every sparsity pattern with stored diagonal for n = 1..4 (4 165 patterns) and for n = 5 every 61st (quick) / all 2^20 (thorough), at 4, 5 and 8 threads, batch cases of 1024 masks, each pattern swept in sorted storage and with reversed / shuffled entries inside the rows (valid input of relaxation::gauss_seidel used directly), one non-trivial sub-case per pattern whose schedule tables were read; sched_random / sweep_random / epoch_trace: seeded G1 grids, G2 graph Laplacians, diagonally dominant matrices with symmetric and non-symmetric pattern, structurally non-symmetric convection-diffusion and one-sided chains (20..4000 rows) at 4..32 threads; diff: seeded G1/G2/G3 inputs (600..6000 rows) plus a small system (100..400 rows, kappa by SVD) for 12-24 solver cells per input, every output recomputed at every thread count of the list; repeat: 20 repetitions per thread count. A case is non-trivial when at least one level-scheduled object was built (>= 4 threads) or at least two thread counts were compared; distinct = distinct (sub-check, descriptor) hash.',
     exhaustive_note='sched_exhaustive: all patterns up to 4x4 in both tiers, all 2^20 5x5 patterns in the thorough tier (schedule invariant of Gauss-Seidel forward/backward and ILU(0) lower/upper)',
     min_nontrivial=dict(quick=4000, thorough=1000000),
     require_obs=dict(quick=['tsan_processes', 'schedules_checked', 'epochs_traced', 'parallel_sweeps_run', 'outputs_compared', 'repetitions'],
